@@ -429,6 +429,25 @@ pub fn corpus(thorough: bool) -> Vec<DetCase> {
             }),
         ));
     }
+    // a recursive registration on a generic path that has two instantiations with different children: the
+    // root is the first registry entry with that path, whatever order a map yields the entries in
+    {
+        let defs = vec![
+            Def::strukt(&["p", "a"], "Apple", &[], named(vec![("v", U32)])),
+            Def::strukt(&["p", "a"], "Pear", &[], named(vec![("v", U16)])),
+            Def::strukt(&["p", "g"], "W", &["T"], named(vec![("t", Ty::Param(0))])),
+            Def::strukt(&["p", "h"], "Host", &[], named(vec![("a", Ty::Named(2, vec![Ty::Named(0, vec![])])), ("b", Ty::Named(2, vec![Ty::Named(1, vec![])]))])),
+        ];
+        regs.push((
+            "recursive root with two instantiations".into(),
+            RegSrc::Prog(Program {
+                defs,
+                roots: vec![Ty::Named(3, vec![])],
+            }),
+        ));
+    }
+    // one path registered under two spellings (`p::a::N` and `::p::a::N`) with different derives
+    regs.push(("one path, two spellings".into(), RegSrc::Prog(arms_program(&Ty::Named(D_N, vec![]), Position::NamedStruct, false, "N"))));
     // chain metadata: the full Polkadot registry in the thorough tier; in the quick tier the first
     // single-id closure with 80..150 entries (the full registry costs ~1 s per run under the hooks)
     let full = crate::run::polkadot_registry();
@@ -477,6 +496,17 @@ pub fn corpus(thorough: bool) -> Vec<DetCase> {
                     ("p::l::Left".into(), vec!["#[left]".into()], true),
                     ("p::l::Right".into(), vec!["#[right]".into()], true),
                 ];
+            }
+            if rn == "recursive root with two instantiations" {
+                s.derives_for = vec![("p::g::W".into(), vec!["::z::Rec".into()], true)];
+                s.attrs_for = vec![("p::g::W".into(), vec!["#[rec]".into()], true)];
+            }
+            if rn == "one path, two spellings" {
+                s.derives_for = vec![
+                    ("p::a::N".into(), vec!["::z::Plain".into()], false),
+                    ("::p::a::N".into(), vec!["::z::Colon".into()], false),
+                ];
+                s.attrs_for = vec![("::p::a::N".into(), vec!["#[colon]".into()], false), ("p::a::N".into(), vec!["#[plain]".into()], false)];
             }
             out.push(DetCase {
                 reg: r.clone(),
